@@ -514,9 +514,39 @@ inline Scenario decode(Chooser& c, const Profile& pf, vf::Stats& st, bool record
         }
         nt = static_cast<unsigned>(s.threads.size());
     }
+    // ---- C06 template: a narrow scan around a stored key K against remove(K); put(K2 new, same border); put(K): the border contributes a
+    // tuple in the first pass, nothing in the re-read, and K is inserted again afterwards
+    if (pf.inserters_only_new_keys && n >= 2 && !sparse && (pf.force_templates ? c.flip() : c.chance(1, 4))) {
+        templated = true;
+        unsigned r = c.range(0, n - 1);
+        std::string K = present_at(r);
+        std::string K2 = ctr_key(s.prefix, 2 * r + (c.flip() ? 0 : 2), width);
+        s.threads.assign(2, {});
+        Op sc0;
+        sc0.kind = pf.w_cursor > pf.w_scan ? OpK::Cursor : OpK::Scan;
+        sc0.l = K;
+        sc0.r = c.flip() ? K : present_at(r + (r + 1 < n ? 1 : 0));
+        if (sc0.r < sc0.l) { sc0.r = sc0.l; }
+        sc0.le = scan_endpoint::INCLUSIVE;
+        sc0.re = scan_endpoint::INCLUSIVE;
+        sc0.nvv = true;
+        s.threads[0].push_back(sc0);
+        auto mk = [&](OpK k, const std::string& key) {
+            Op o;
+            o.kind = k;
+            o.key = key;
+            if (k == OpK::Put || k == OpK::PutUnique) { o.wid = id++; }
+            return o;
+        };
+        s.threads[1].push_back(mk(OpK::Remove, K));
+        if (c.chance(3, 4)) { s.threads[1].push_back(mk(OpK::Put, K2)); }
+        s.threads[1].push_back(mk(c.flip() ? OpK::Put : OpK::PutUnique, K));
+        s.family += "+reinsert_template";
+        nt = 2;
+    }
     // ---- C06 template: a scan that starts in the gap behind the last key of a border (that border is recorded without contributing a
     // tuple) and continues through the next borders, against inserts of the gap key and of a new key in the following border
-    if (pf.inserters_only_new_keys && fam == 4 && !sparse && n >= 17 && width == 1 && (pf.force_templates || c.chance(1, 3))) {
+    if (!templated && pf.inserters_only_new_keys && fam == 4 && !sparse && n >= 17 && width == 1 && (pf.force_templates || c.chance(1, 3))) {
         templated = true;
         unsigned nb = (n - 1) / 8; // ascending setup inserts leave borders of 8 keys (the last one holds the rest)
         unsigned b = c.range(0, nb > 1 ? nb - 2 : 0);
@@ -1030,8 +1060,33 @@ inline vf::CaseResult run_scenario(const Profile& pf, const Scenario& sc, const 
                     }
                     for (auto& h : history) {
                         if ((h.kind != HKind::Put && h.kind != HKind::PutUnique) || h.res != HRes::Ok) { continue; }
-                        if (initial.count(h.key) != 0) { continue; } // not an insert of a new key
                         if (!in_interval(h.key, o)) { continue; }
+                        // which puts are certainly inserts of a key that was absent?
+                        //  (A) the key is absent initially and nobody ever removes it, or
+                        //  (B) the same thread removed it (OK) just before, as its previous operation on that key, and no other thread
+                        //      writes that key at all (program order then makes the put an insert)
+                        bool reinsert = false;
+                        if (initial.count(h.key) != 0) {
+                            const HOp* prev_same = nullptr;
+                            bool others_write = false;
+                            for (auto& g : history) {
+                                if (g.key != h.key || g.thread < 0 || &g == &h) { continue; }
+                                if (g.kind == HKind::Get || g.kind == HKind::Read) { continue; }
+                                if (g.thread != h.thread) {
+                                    others_write = true;
+                                } else if (g.resp < h.inv && (prev_same == nullptr || g.resp > prev_same->resp)) {
+                                    prev_same = &g;
+                                }
+                            }
+                            if (others_write || prev_same == nullptr || prev_same->kind != HKind::Remove || prev_same->res != HRes::Ok) { continue; }
+                            // and nothing of this thread touches the key afterwards
+                            bool later = false;
+                            for (auto& g : history) {
+                                if (g.key == h.key && g.thread == h.thread && g.inv > h.resp && g.kind != HKind::Get && g.kind != HKind::Read) { later = true; }
+                            }
+                            if (later) { continue; }
+                            reinsert = true;
+                        }
                         if (!complete) {
                             // covered part only: up to the last produced key
                             if (r.items.empty()) { continue; }
@@ -1041,11 +1096,13 @@ inline vf::CaseResult run_scenario(const Profile& pf, const Scenario& sc, const 
                         // was the key removed again?  then "exists" is not claimed; only pure inserts are judged
                         bool removed_again = false;
                         for (auto& g : history) {
-                            if (g.kind == HKind::Remove && g.key == h.key) { removed_again = true; }
+                            if (g.kind == HKind::Remove && g.key == h.key && !reinsert) { removed_again = true; }
                         }
                         if (removed_again) { continue; }
                         if (h.inv < r.resp && r.inv < h.resp) { insert_overlapped_scan = true; }
-                        if (got.count(h.key) == 0 && !stale) {
+                        // "seen": the key is in the result (for a re-insert: with the re-inserted value, not the one removed before)
+                        const bool seen = got.count(h.key) != 0 && (!reinsert || got.at(h.key) == h.wid);
+                        if (!seen && !stale) {
                             failx(cursor && start_tuple_conflict(sc, o, h.key) ? "cursor_start_tuple_inserted"
                                           : (cursor && layer_root_replaced(h.key) ? "cursor_layer_root_replaced_skip" : "insert_neither_seen_nor_stale"), "insert of \"" + show(h.key) + "\" (T" + std::to_string(h.thread) + ") is not in the " +
                                                                          (cursor ? "cursor" : "scan") + " result and every recorded node version is unchanged (recorded=" +
